@@ -485,3 +485,16 @@ mod tests {
             .quickcheck(prop as fn(Vec<u8>) -> TestResult);
     }
 }
+
+#[cfg(feature = "verif-hooks")]
+#[doc(hidden)]
+pub mod verif_hooks {
+    pub fn total_needed_pages(value_size: usize) -> usize {
+        super::total_needed_pages(value_size)
+    }
+    pub fn needed_pages(size: usize) -> usize {
+        super::needed_pages(size)
+    }
+    pub const BODY_SIZE: usize = super::BODY_SIZE;
+    pub const MAX_PNS: usize = super::MAX_PNS;
+}
